@@ -145,11 +145,11 @@ func eq(a, b string) string {
 // ---------------------------------------------------------------------------
 
 type SolverResult struct {
-	Status string // unsat | sat | unknown | timeout | error
-	Solver string
-	Secs   float64
-	Output string
-	Values map[string]string
+	Status  string // unsat | sat | unknown | timeout | error
+	Solver  string
+	Secs    float64
+	Output  string
+	Values  map[string]string
 	Ordered []string // values of the get-value terms, in request order
 }
 
